@@ -660,8 +660,10 @@ def gen_run(rng, tier):
         elif r < 0.74 and "future" in enabled:
             ops.append({"op": "future", "file": rng.choice(files), "dt": dt})
         elif r < 0.82 and "delete" in enabled:
-            ops.append({"op": "delete", "dt": dt,
-                        "files": rng.choice([["g.pgc"], ["g.pgec"], ["g.pgc", "g.pgec"]])})
+            choices = [["g.pgc"], ["g.pgec"], ["g.pgc", "g.pgec"]]
+            if pge:
+                choices.append(["g.pge"])  # the hint source disappears, its cache stays
+            ops.append({"op": "delete", "dt": dt, "files": rng.choice(choices)})
         elif r < 0.92 and "compile" in enabled:
             if single:
                 e = effective(cfgs[0])
@@ -675,6 +677,9 @@ def gen_run(rng, tier):
             if op["op"] == "compile" and faults_on and rng.random() < 0.3:
                 op["fault"] = gen_fault(rng, fault_kinds, False)
             ops.append(op)
+        elif "edit_pge" in enabled and pge and rng.random() < 0.25:
+            # back to the original examples (also re-creates a deleted .pge), or empty
+            ops.append({"op": "edit_pge", "dt": dt, "text": rng.choice([pge, pge, ""])})
         elif "edit_pge" in enabled and pge:
             ops.append({"op": "edit_pge", "dt": dt,
                         "text": pge + f"\n=====\n{rng.choice(probes)} @@\n:::\nextra hint {rng.randint(0, 9)}\n"})
